@@ -124,60 +124,21 @@ def _arity(ctx):
 
 # ---------------------------------------------------------------------------
 def _lenient(ctx):
+    """Lenient handling decided on the parse loop itself (E7, sa.parseloop):
+    all short line sequences containing an unsplittable line or an
+    undecodable value, inside and outside lenient components."""
+    from .. import parseloop
     m = ctx.model
-    pl = parse_loop(ctx)
-    fi = pl["fi"]
-    tries = [n for n in ast.walk(pl["loop"]) if isinstance(n, ast.Try)]
-    lenient = []
-    for t in tries:
-        for h in t.handlers:
-            names = [x.id for x in ast.walk(h.type) if isinstance(x, ast.Name)] if h.type else []
-            if names == ["ValueError"] and any(
-                    isinstance(c, ast.Attribute) and c.attr == "ignore_exceptions" for c in ast.walk(h)):
-                lenient.append((t, h))
-    if len(lenient) != 2:
-        raise AnalysisError(f"from_ical: expected 2 lenient handlers (line splitting, value "
-                            f"decoding), found {len(lenient)}")
-    for i, (t, h) in enumerate(lenient):
-        what = "line splitting" if any(
-            isinstance(c, ast.Call) and isinstance(c.func, ast.Attribute) and c.func.attr == "parts"
-            for c in ast.walk(ast.Module(body=t.body, type_ignores=[]))) else "value decoding"
-        # (a) re-raise unless the current component is lenient
-        reraise = [s for s in h.body if isinstance(s, ast.If)
-                   and any(isinstance(x, ast.Raise) and x.exc is None for x in s.body)
-                   and "ignore_exceptions" in dump(s.test) and "not " in dump(s.test)]
-        # (b) record (name-or-None, message) in the component's errors
-        rec = [c for c in ast.walk(h) if isinstance(c, ast.Call)
-               and isinstance(c.func, ast.Attribute) and c.func.attr == "append"
-               and isinstance(c.func.value, ast.Attribute) and c.func.value.attr == "errors"
-               and c.args and isinstance(c.args[0], ast.Tuple) and len(c.args[0].elts) == 2]
-        # (c) go on with the next line: no break / return; (d) component not mutated
-        exits = [n for n in ast.walk(h) if isinstance(n, (ast.Break, ast.Return))]
-        mut = [c for c in ast.walk(h) if isinstance(c, ast.Call) and isinstance(c.func, ast.Attribute)
-               and c.func.attr in ("add", "add_component", "pop", "clear", "update")]
-        stores = [n for n in ast.walk(h) if isinstance(n, ast.Subscript) and isinstance(n.ctx, (ast.Store, ast.Del))]
-        order_ok = bool(reraise) and bool(rec) and reraise[0].lineno < rec[0].lineno
-        ctx.check(order_ok, "C04/LENIENT", f"{what}: re-raise unless lenient, else record",
-                  f"the {what} handler must re-raise when the component is absent or not lenient "
-                  f"and otherwise append (name, message) to component.errors", fi.loc(h),
-                  detail="if not component.ignore_exceptions: raise; component.errors.append((…, str(e)))")
-        ctx.check(not exits and not mut and not stores, "C04/LENIENT",
-                  f"{what}: continues with the next line, component untouched",
-                  f"the {what} handler leaves the loop or changes the component "
-                  f"({[type(x).__name__ for x in exits] + [dump(c)[:30] for c in mut]}): other "
-                  f"properties and subcomponents of a lenient component must be kept",
-                  fi.loc(h), detail="no break/return, no mutation")
-        if what == "line splitting":
-            last = h.body[-1]
-            ctx.check(isinstance(last, ast.Continue), "C04/LENIENT",
-                      f"{what}: skips only the broken line",
-                      "after recording the error the handler must `continue`", fi.loc(h),
-                      detail="continue")
-        else:
-            # decoding: the add happens in the else branch, so a failed line adds nothing
-            ctx.check(bool(t.orelse), "C04/LENIENT", f"{what}: value added only on success",
-                      "the decoded value must be added in the try's else branch", fi.loc(t),
-                      detail="try/except/else")
+    parseloop.report(
+        ctx, "C04/LENIENT",
+        lambda d: d["has_bad"] or d["exp"][0][0] == "raise" or d["got"][0][0] == "raise",
+        "bad lines: dropped and recorded inside VEVENT, ValueError elsewhere",
+        laws=("unsplittable line inside a lenient component: recorded, line skipped",
+              "undecodable value inside a lenient component: recorded, nothing added",
+              "other properties and subcomponents of the lenient component kept",
+              "the same lines outside lenient components raise ValueError",
+              "END without BEGIN, property without parent, wrong component count: ValueError",
+              "no other exception class leaves the loop"))
     # only VEVENT is lenient
     table = {}
     for c in m.component_classes():
